@@ -327,6 +327,7 @@ def run(ctx):
                     seqs.append([[e2, 0], [e1, 0]])
         if ctx.quick:
             seqs = seqs[::3]
+            ctx.cap_hit("%s: two-box diagrams every 3rd (all single boxes complete)" % cls)
         for seq in seqs:
             for sub in (SUBS[0], SUBS[3], SUBS[4]):
                 mode = "args" if len(sub[1]) == 1 else "pairs"
